@@ -125,14 +125,73 @@ def gcPassWith (al : Nat → List Nat) (prog : List Step) : Option (List Step) :
     if last.op != .ret then none
     else some (gcBack al (last.ins.map (·.id)) prog).1
 
-/-- `Program.GC` as it is (0c2f851): an input is dead only if neither it nor
-any direct or indirect alias (through the eight rewiring operands) is live. -/
-def gcPass (prog : List Step) : Option (List Step) :=
+/-- The gc-insertion part of `Program.GC` (0c2f851): an input is dead only if
+neither it nor any direct or indirect alias (through the eight rewiring
+operands) is live. -/
+def gcInsert (prog : List Step) : Option (List Step) :=
   gcPassWith (aliasClosure (aliasesOf prog) prog.length) prog
+
+/-! ### `Program.defineBeforeUse` (73f8795)
+
+`defAt`: value id ↦ index of the (last) step whose output it is; `emit i`:
+unless already emitted, mark `i`, first emit the defining step of every
+non-constant input, then append step `i`.  The Go recursion terminates because
+a step is marked before its inputs are followed; here `fuel` bounds the depth
+(a chain of distinct unmarked steps has at most `prog.length` members). -/
+
+def defAt (prog : List Step) (v : Nat) : Option Nat :=
+  (prog.zipIdx.filter fun p => p.1.outId == some v).getLast?.map (·.2)
+
+structure EmitSt where
+  emitted : List Nat := []
+  out     : List Step := []
+  deriving Repr
+
+/-- The loop over `Instr.In` of `emit`: follow the defining step of every
+non-constant input with `k` (= `emit` with less fuel). -/
+def followIns (k : Nat → EmitSt → EmitSt) (prog : List Step) (ins : List Arg) (st : EmitSt) : EmitSt :=
+  ins.foldl (fun st a =>
+    if a.const then st
+    else match defAt prog a.id with
+      | some j => k j st
+      | none => st) st
+
+def emit (prog : List Step) : Nat → Nat → EmitSt → EmitSt
+  | 0, _, st => st
+  | fuel + 1, i, st =>
+    if st.emitted.contains i then st
+    else
+      match prog[i]? with
+      | none => st
+      | some s =>
+        let st1 := followIns (emit prog fuel) prog s.ins { st with emitted := i :: st.emitted }
+        { st1 with out := st1.out ++ [s] }
+
+def defineBeforeUse (prog : List Step) : List Step :=
+  ((List.range prog.length).foldl (fun st i => emit prog (prog.length + 1) i st) {}).out
+
+/-- `Program.GC` as it is: `defineBeforeUse`, then the gc insertion. -/
+def gcPass (prog : List Step) : Option (List Step) := gcInsert (defineBeforeUse prog)
 
 /-- `Program.GC` BEFORE 0c2f851: the table of DIRECT aliases through seven
 operands (no `concat`).  Kept for the two negation witnesses. -/
 def gcPassOld (prog : List Step) : Option (List Step) := gcPassWith (aliasesOfOld prog) prog
+
+/-! ## Well-formedness of a step list (checked on every real compilation) -/
+
+def outs (l : List Step) : List Nat := l.filterMap Step.outId
+
+/-- Definition before use, as a check on every suffix: a value read by a step
+is not the output of that step or of a later one. -/
+def dbu : List Step → Bool
+  | [] => true
+  | s :: rest => s.ins.all (fun a => a.const || !(outs (s :: rest)).contains a.id) && dbu rest
+
+/-- Executable form of the hypotheses of the safety theorem: single
+assignment and definition before use (`Proofs/Gc.lean: WF` adds "no `gc`
+yet"). -/
+def wfSteps (prog : List Step) : Bool :=
+  dbu prog && decide ((outs prog).Nodup) && prog.all (·.op != .gc)
 
 /-! ## Wire allocator and id rewiring -/
 
